@@ -158,10 +158,10 @@ def match_known(known, prop, full_name, labels):
 
 
 THOROUGH_ENV = {
-    "C01": {"C01_TREES": "2000"}, "C03": {"C03_PROGRAMS": "1500"}, "C05": {"C05_DEPTH": "4", "C05_BUDGET": "1600"},
-    "C09": {"C09_PROGRAMS": "1500"}, "C10": {"C10_PROGRAMS": "2000"}, "C12": {"C12_MAXLEN": "5"}, "C17": {"C17_MAXLEN": "6"},
-    "C19": {"C19_TREES": "2000"}, "C02": {"SCOPE_LEVEL": "2"}, "C06": {"SCOPE_LEVEL": "2"}, "C07": {"SCOPE_LEVEL": "2"},
-    "C08": {"SCOPE_LEVEL": "2"},
+    "C01": {"C01_TREES": "20000"}, "C03": {"C03_PROGRAMS": "30000"}, "C05": {"C05_DEPTH": "5", "C05_BUDGET": "40000"},
+    "C09": {"C09_PROGRAMS": "1500"}, "C10": {"C10_PROGRAMS": "100000"}, "C12": {"C12_MAXLEN": "6"}, "C17": {"C17_MAXLEN": "7"},
+    "C19": {"C19_TREES": "100000"}, "C02": {"SCOPE_LEVEL": "3"}, "C06": {"SCOPE_LEVEL": "3"}, "C07": {"SCOPE_LEVEL": "3"},
+    "C08": {"SCOPE_LEVEL": "3"},
 }
 
 
@@ -227,7 +227,8 @@ def check(prop: str, tier: str) -> int:
         if not r["error"] and not r["undecided"]:
             if not real:
                 broken.append(f"{r['contract']}: zero obligations generated (vacuous)")
-            if not r["lemma"] and not any(c["status"] == "sat" for c in canaries):
+            refuted_here = any(o["status"] == "sat" and o["kind"] not in ("canary", "frame") for o in r["obligations"])
+            if not r["lemma"] and not refuted_here and not any(c["status"] == "sat" for c in canaries):
                 broken.append(f"{r['contract']}: no satisfiable canary - requires/invariants may be contradictory")
         fn_records.append(dict(contract=r["contract"], file=r["file"], function=r["func"], source_sha256_16=r["source_hash"],
                                paths=r["paths"], obligations=len(real),
